@@ -87,8 +87,12 @@ def gen_metamodel(rng, k):
             r = E.EReference(nm(), rng.choice(classes), lower=lo, upper=up, ordered=rng.random() < .8, unique=True,
                              containment=rng.random() < .4)
             add(c.eStructuralFeatures, r)
+        kws = ['import', 'class', 'from', 'assert', 'global']
         for _ in range(rng.choice([0, 0, 1, 2])):
-            op = E.EOperation(nm('op'), eType=rng.choice([None, E.EString, E.EInt] + classes))
+            # (an operation may be named like a Python keyword — `import`, `class`: the method is then `import_`)
+            kw = rng.choice(kws)
+            opname = kw if rng.random() < .25 and all(o.name != kw for o in c.eOperations) else nm('op')
+            op = E.EOperation(opname, eType=rng.choice([None, E.EString, E.EInt] + classes))
             npar = rng.randint(0, 3)
             nreq = rng.randint(0, npar)           # Python wants the required parameters first
             for q in range(npar):
